@@ -1,6 +1,7 @@
 CONSTANTS
   MaxTicks = 3
   CODE_StopReadsModeEarly = TRUE
+  CODE_MonitorClearsStarted = FALSE
 SPECIFICATION Spec
 INVARIANT QuietAfterStop
 PROPERTY StopReturns
